@@ -413,7 +413,9 @@ pub fn c36_end_to_end() {
         {
             continue;
         }
-        cases.push((name, build_case(name)));
+        let (case, attempts) = build_case_checked(name, &inputs_for(name, thorough).0[0]);
+        rep.count_n("dylib_rebuilds_after_failed_smoke_run", attempts as u64 - 1);
+        cases.push((name, case));
     }
     if util::repo_fingerprint() != fp {
         rep.require(false, "the repository under test changed while the simulator dylibs were being compiled; rerun");
@@ -666,7 +668,9 @@ pub fn c37_end_to_end() {
         {
             continue;
         }
-        cases.push((name, build_case(name)));
+        let (case, attempts) = build_case_checked(name, &inputs_for(name, thorough).0[0]);
+        rep.count_n("dylib_rebuilds_after_failed_smoke_run", attempts as u64 - 1);
+        cases.push((name, case));
     }
     if util::repo_fingerprint() != fp {
         rep.require(false, "the repository under test changed while the simulator dylibs were being compiled; rerun");
